@@ -187,26 +187,24 @@ func UnmarshalAttribute(attr *api.Attribute) (bgp.PathAttributeInterface, error)
 					}
 				case *api.TunnelEncapTLV_TLV_SrSegmentList:
 					var err error
-					weight := uint32(0)
-					flags := uint8(0)
-					if sv.SrSegmentList.Weight != nil {
-						weight = sv.SrSegmentList.Weight.Weight
-						flags = uint8(sv.SrSegmentList.Weight.Flags)
-					}
 					s := &bgp.TunnelEncapSubTLVSRSegmentList{
 						TunnelEncapSubTLV: bgp.TunnelEncapSubTLV{
 							Type:   bgp.ENCAP_SUBTLV_TYPE_SRSEGMENT_LIST,
-							Length: uint16(6), // Weight (6 bytes) + length of segment (added later, after all segments are discovered)
+							Length: uint16(1), // Reserved octet; Weight and segments are added below
 						},
-						Weight: &bgp.SegmentListWeight{
+						Segments: make([]bgp.TunnelEncapSubTLVInterface, 0),
+					}
+					// The Weight Sub TLV is optional
+					if w := sv.SrSegmentList.Weight; w != nil {
+						s.Weight = &bgp.SegmentListWeight{
 							TunnelEncapSubTLV: bgp.TunnelEncapSubTLV{
 								Type:   bgp.SegmentListSubTLVWeight,
 								Length: uint16(6),
 							},
-							Flags:  flags,
-							Weight: weight,
-						},
-						Segments: make([]bgp.TunnelEncapSubTLVInterface, 0),
+							Flags:  uint8(w.Flags),
+							Weight: w.Weight,
+						}
+						s.Length += uint16(s.Weight.Len())
 					}
 					if len(sv.SrSegmentList.Segments) != 0 {
 						s.Segments, err = UnmarshalSRSegments(sv.SrSegmentList.Segments)
@@ -216,7 +214,7 @@ func UnmarshalAttribute(attr *api.Attribute) (bgp.PathAttributeInterface, error)
 					}
 					// Get total length of Segment List Sub TLV
 					for _, seg := range s.Segments {
-						s.Length += uint16(seg.Len() + 2) // Adding 1 byte of type and 1 byte of length for each Segment object
+						s.Length += uint16(seg.Len()) // Len() includes 1 byte of type and 1 byte of length of each Segment object
 					}
 					subTlv = s
 				case *api.TunnelEncapTLV_TLV_Unknown:
@@ -2813,14 +2811,18 @@ func NewTunnelEncapAttributeFromNative(a *bgp.PathAttributeTunnelEncap) (*api.Tu
 				if err != nil {
 					return nil, err
 				}
+				sl := &api.TunnelEncapSubTLVSRSegmentList{
+					Segments: s,
+				}
+				// The Weight Sub TLV is optional
+				if sv.Weight != nil {
+					sl.Weight = &api.SRWeight{
+						Flags:  uint32(sv.Weight.Flags),
+						Weight: sv.Weight.Weight,
+					}
+				}
 				subTlv.Tlv = &api.TunnelEncapTLV_TLV_SrSegmentList{
-					SrSegmentList: &api.TunnelEncapSubTLVSRSegmentList{
-						Weight: &api.SRWeight{
-							Flags:  uint32(sv.Weight.Flags),
-							Weight: sv.Weight.Weight,
-						},
-						Segments: s,
-					},
+					SrSegmentList: sl,
 				}
 			}
 			subTlvs = append(subTlvs, &subTlv)
